@@ -24,4 +24,9 @@ pub mod prelude {
     pub use crate::slice::{ParallelSlice, ParallelSliceMut};
 }
 
-pub use model::{current_num_threads, join, scope, Scope, ThreadPool, ThreadPoolBuildError, ThreadPoolBuilder};
+pub use model::{current_num_threads, current_thread_index, join, scope, Scope, ThreadPool, ThreadPoolBuildError, ThreadPoolBuilder};
+
+/// upper bound rayon documents for the pool size
+pub fn max_num_threads() -> usize {
+    1 << 16
+}
